@@ -13,6 +13,10 @@ unsafe fn ok_nibble(v: __m128i) -> __m128i {
     let lo = _mm_and_si128(_mm_set1_epi8(0xF0u8 as i8), _mm_slli_epi16::<4>(v));
     _mm_or_si128(_mm_cmpgt_epi8(hi, _mm_set1_epi8(-1)), _mm_andnot_si128(lo, _mm_adds_epu8(v, _mm_set1_epi8(K))))
 }
+unsafe fn named_mask(v: __m128i) -> __m128i {
+    let low_mask = _mm_set1_epi8(0x0F);
+    _mm_and_si128(_mm_srli_epi16(v, 4), low_mask)
+}
 unsafe fn bad_shift(v: __m128i) -> __m128i { _mm_or_si128(_mm_srli_epi16(v, 4), v) }
 unsafe fn bad_mask(v: __m128i) -> __m128i { _mm_and_si128(_mm_srli_epi16(v, 4), _mm_set1_epi8(0x1F)) }
 unsafe fn bad_cross(v: __m128i, p: __m128i) -> __m128i { _mm_cmpeq_epi8(_mm_alignr_epi8(v, p, 15), v) }
@@ -50,6 +54,7 @@ def main():
     assert "SV.Lane.cmpgt hi 0xFF#8" in t and "SV.Lane.andnot lo (SV.Lane.addsu v 0x7A#8)" in t, t
     t = tr("with_helper", {"inputs": ["v"], "outputs": ["return"]})
     assert "(v : BitVec 8) (k : BitVec 8)" in t and "SV.Lane.minu (v - 0x61#8) 0x19#8" in t and "SV.Lane.cmpeq v k" in t, t
+    assert "SV.Lane.srlMasked v 4 0x0F#8" in tr("named_mask", {"inputs": ["v"], "outputs": ["return"]})
     refuses("bad_shift", {"inputs": ["v"], "outputs": ["return"]}, "not immediately masked")
     refuses("bad_mask", {"inputs": ["v"], "outputs": ["return"]}, "neighbouring byte")
     refuses("bad_cross", {"inputs": ["v", "p"], "outputs": ["return"]}, "cross-lane")
